@@ -53,6 +53,8 @@ def gen_case(base, prop, i, mode='plain'):
         ops, mix = W.gen_ops(rng, w)
         if mode == 'race':
             ops = add_races(rng, w, ops)
+        else:
+            ops = add_late_registration(rng, w, ops)
         return {'prop': prop, 'world': w, 'ops': ops, 'mix': mix,
                 'mode': mode}
     if prop == 'C11':
@@ -60,6 +62,7 @@ def gen_case(base, prop, i, mode='plain'):
         bias = [d['name'] for d in w['defaults'] if d['dep']] + \
             w['old_names']
         ops, mix = W.gen_ops(rng, w, bias=bias or None)
+        ops = add_late_registration(rng, w, ops)
         return {'prop': prop, 'world': w, 'ops': ops, 'mix': mix,
                 'mode': mode}
     raise ValueError(prop)
@@ -151,6 +154,23 @@ def short_total(w_alpha=16):
     return SHORT_WORLDS * sum(w_alpha ** k for k in range(1, SHORT_LEN + 1))
 
 
+def add_late_registration(rng, w, ops):
+    """When the world marks defaults as late, the long-lived enforcer
+    starts without them, loads at least once, and gets them registered at
+    a seeded point of the history; nothing is judged before that point
+    (earlier observations become plain loads)."""
+    if not any(d.get('late') for d in w['defaults']):
+        return ops
+    k = rng.randint(0, max(0, min(len(ops) - 1, 4)))
+    head = []
+    for op in ops[:k]:
+        if op['op'] in ('check', 'probe'):
+            head.append({'op': 'load'})
+        else:
+            head.append(op)
+    return head + [{'op': 'load'}, {'op': 'register'}] + ops[k:]
+
+
 def add_races(rng, w, ops):
     """Racing sub-mode: turn some edits into edits that land between two
     file-system calls of one enforcement call. Deletes never race (the
@@ -176,6 +196,8 @@ def _namekind(w, name):
         return 'deprecated-registered' if reg[name]['dep'] else 'registered'
     if name in w['old_names']:
         return 'old-name'
+    if name.startswith('@tree:'):
+        return 'check-object'
     if name.startswith('which:'):
         return 'file-selection'
     if name == W.NEVER:
@@ -241,7 +263,8 @@ def execute(case, backend='sim', record=False):
     obs = []
     viol = None
     try:
-        L = ds.make_enforcer()
+        has_reg = any(op['op'] == 'register' for op in case['ops'])
+        L = ds.make_enforcer(include_late=not has_reg)
         main0, main_constrained = ds.model_main()
         loaded = [False]
         deleted_content = {}
@@ -403,6 +426,15 @@ def execute(case, backend='sim', record=False):
                     if fr == 'ok':
                         judge(step, 'L', ('<load_rules>', (), False), r,
                               'ok', 'L-raises-' + r[4:])
+            elif k == 'register':
+                # the service registers more defaults on the running
+                # enforcer (plugins loaded late)
+                try:
+                    L.register_defaults(ds.late_defaults())
+                except Exception as ex:   # noqa
+                    dg.add('register', step, type(ex).__name__)
+                ds._late_objs = []
+                cnt.hit('probe:defaults_registered_after_first_load')
             elif k == 'probe':
                 observe(step, [op['i'] % len(ds.probes)])
             elif k == 'check':
@@ -670,9 +702,11 @@ EXPECTED_PROBES = {
             'override_removed_default_visible', 'main_created_after_start',
             'main_deleted_after_load', 'old_name_override_removed',
             'readdir_order_not_sorted', 'edit_inside_enforce_call',
-            'deleted_file_recreated_identical'],
+            'deleted_file_recreated_identical',
+            'defaults_registered_after_first_load'],
     'C11': ['old_name_override_removed',
-            'override_removed_default_visible'],
+            'override_removed_default_visible',
+            'defaults_registered_after_first_load'],
     'C09': ['readdir_order_not_sorted', 'legacy_json_fallback_taken',
             'file_is_symlink', 'symlink_to_directory_decoy'],
 }
